@@ -461,8 +461,19 @@ def gen_c06(tier, rng):
             ln = rng.choice([1, 5, mx - 24, mx - 23, 2 * (mx - 24), 3 * (mx - 24) + 1, rng.randrange(1, 4 * mx)])
             pkts.append(gen_enc.gpkt(ln, rng.randrange(251), ty=rng.choice([0x01FF, 0x0104, 0x0105, 0x0304, 0x03FF]), ts=rng.getrandbits(40),
                                      ifid=rng.getrandbits(32), vend=rng.getrandbits(16), flags=rng.getrandbits(8) & 0xB3, ver=3))
-        ops = [gen_enc.pline(p, "p%d" % i) for i, p in enumerate(pkts)]
-        ops += ["enc e dev 7", "enc e stream 9"]
+        # some packets get their payload REPLACED IN PLACE (through getPayload()) after they were built, with another length: the stream
+        # that is sent - and that the faults are applied to - is the one of the packets as they are when encode is called
+        import copy
+        define = list(pkts)
+        inplace = []
+        if rng.random() < 0.2:
+            j = rng.randrange(npk)
+            q = copy.copy(pkts[j])
+            q.gen = (rng.choice([1, mx - 24, 2 * (mx - 24) + 1, 5 * mx]), pkts[j].gen[1])
+            define[j] = q
+            inplace.append("pk plassign p%d %04x gen:%d:%d" % (j, pkts[j].ty, pkts[j].gen[0], pkts[j].gen[1]))
+        ops = [gen_enc.pline(p, "p%d" % i) for i, p in enumerate(define)]
+        ops += ["enc e dev 7", "enc e stream 9"] + inplace
         ids = " ".join("p%d" % i for i in range(npk))
         ops.append("enc e encode 0 %d %s" % (mx, ids))
         # number of frames is known from the model of C08: compute here from the rules
